@@ -496,45 +496,144 @@ func ruleTabP10(c *Ctx) {
 	}
 	for _, t := range []struct {
 		fn   string
-		tag  string
 		bias int64
 		prop string
-	}{{"Decimal.PowWithMode", "oExp", bias, "C18"}, {"decomposed192.powexp10", "o", 0, "C16"}} {
+	}{{"Decimal.PowWithMode", bias, "C18"}, {"decomposed192.powexp10", 0, "C16"}} {
 		fd := c.fn(t.fn)
 		if fd == nil {
 			continue
 		}
-		found := 0
-		ast.Inspect(fd.Body, func(n ast.Node) bool {
-			sw, ok := n.(*ast.SwitchStmt)
-			if !ok || sw.Tag == nil || p.exprStr(sw.Tag) != t.tag {
+		// the selector: the exponent of the power operand. In PowWithMode it is the second result of
+		// decompose on the (only) Decimal parameter, in powexp10 the int16 parameter.
+		var tagObj types.Object
+		ps := paramObjs(p, fd)
+		if t.bias == 0 {
+			if len(ps) >= 1 {
+				tagObj = ps[0]
+			}
+		} else if len(ps) >= 1 {
+			ast.Inspect(fd.Body, func(n ast.Node) bool {
+				as, ok := n.(*ast.AssignStmt)
+				if !ok || len(as.Lhs) != 2 || len(as.Rhs) != 1 {
+					return true
+				}
+				call, ok := as.Rhs[0].(*ast.CallExpr)
+				if !ok || !strings.HasSuffix(p.calleeName(call), ".decompose") {
+					return true
+				}
+				if sel, ok := ast.Unparen(call.Fun).(*ast.SelectorExpr); ok && p.objOf(sel.X) == ps[0] {
+					tagObj = p.objOf(as.Lhs[1])
+				}
 				return true
+			})
+		}
+		if tagObj == nil {
+			c.undecided("p10:"+t.fn, fd, "the exponent selecting the power of ten was not found", t.prop)
+			continue
+		}
+		found := 0
+		maxE := int64(0)
+		var tabVar types.Object
+		walkStack(fd.Body, func(n ast.Node, stack []ast.Node) {
+			switch x := n.(type) {
+			case *ast.SwitchStmt:
+				// (a) one arm per exponent assigning a constant
+				if x.Tag == nil || p.objOf(x.Tag) != tagObj {
+					return
+				}
+				for _, cc := range x.Body.List {
+					cl := cc.(*ast.CaseClause)
+					if len(cl.List) != 1 || len(cl.Body) != 1 {
+						continue
+					}
+					as, ok := cl.Body[0].(*ast.AssignStmt)
+					if !ok || len(as.Lhs) != 1 || len(as.Rhs) != 1 || as.Tok != token.ASSIGN || p.objOf(as.Lhs[0]) == nil {
+						continue
+					}
+					k, ok1 := p.constInt64(cl.List[0])
+					v, ok2 := p.constInt64(as.Rhs[0])
+					if !ok1 || !ok2 {
+						continue
+					}
+					if tabVar == nil {
+						tabVar = p.objOf(as.Lhs[0])
+					}
+					key := fmt.Sprintf("p10:%s:case%d", t.fn, k-t.bias)
+					found++
+					if p.objOf(as.Lhs[0]) != tabVar {
+						c.check(false, key, cl, "all arms set the same variable", fmt.Sprintf("%s: case %d assigns a different variable than the other arms", t.fn, k-t.bias), t.prop)
+						continue
+					}
+					e := k - t.bias
+					maxE = max(maxE, e)
+					c.check(e >= 0 && e <= 18 && pow10(int(e)).Cmp(big.NewInt(v)) == 0, key, cl, fmt.Sprintf("p10 = 10^%d", e),
+						fmt.Sprintf("%s: case %d sets p10 = %d, want 10^%d", t.fn, e, v, e), t.prop)
+				}
+			case *ast.IndexExpr:
+				// (b) a lookup T[exp-bias][0] in a read-only table of constants
+				row := x
+				if inner, ok := ast.Unparen(x.X).(*ast.IndexExpr); ok {
+					if j, ok := p.constInt64(x.Index); !ok || j != 0 {
+						return
+					}
+					row = inner
+				} else if len(stack) > 0 {
+					if par, ok := stack[len(stack)-1].(*ast.IndexExpr); ok && ast.Unparen(par.X) == ast.Expr(x) {
+						return // visited as the inner part of T[i][j]
+					}
+				}
+				base, ok := ast.Unparen(row.X).(*ast.Ident)
+				if !ok {
+					return
+				}
+				tab := p.constTableOf(p.Info.Uses[base])
+				if tab == nil || tab.two != (row != x) {
+					return
+				}
+				k, off, ok := p.linearKey(row.Index)
+				if !ok || k != fmt.Sprintf("%s@%d", tagObj.Name(), tagObj.Pos()) {
+					return
+				}
+				uses := false
+				ast.Inspect(row.Index, func(m ast.Node) bool {
+					if mid, ok := m.(*ast.Ident); ok && p.Info.Uses[mid] == tagObj {
+						uses = true
+					}
+					return true
+				})
+				if !uses {
+					return
+				}
+				iv := p.intervalAt(fd, row.Index, append(append([]ast.Node{}, stack...), n))
+				if iv.lo == nil || iv.hi == nil || !iv.lo.IsInt64() || !iv.hi.IsInt64() || iv.hi.Int64()-iv.lo.Int64() > 64 {
+					c.undecided("p10:"+t.fn+":lookup", x, t.fn+": the index of the power-of-ten lookup is not bounded at this point", t.prop)
+					return
+				}
+				for i := iv.lo.Int64(); i <= iv.hi.Int64(); i++ {
+					e := i - off.Int64() - t.bias // exponent this index stands for
+					key := fmt.Sprintf("p10:%s:case%d", t.fn, e)
+					found++
+					maxE = max(maxE, e)
+					okV := i >= 0 && i < int64(len(tab.rows)) && e >= 0 && e <= 18 && tab.rows[i][0].Cmp(pow10(int(e))) == 0
+					if okV {
+						for _, limb := range tab.rows[i][1:] {
+							if limb.Sign() != 0 {
+								okV = false
+							}
+						}
+					}
+					c.check(okV, key, x, fmt.Sprintf("p10 = 10^%d", e),
+						fmt.Sprintf("%s: for exponent %d the lookup %s reads entry %d, which is not 10^%d in one word", t.fn, e, p.exprStr(x), i, e), t.prop)
+				}
 			}
-			for _, cc := range sw.Body.List {
-				cl := cc.(*ast.CaseClause)
-				if len(cl.List) != 1 || len(cl.Body) != 1 {
-					continue
-				}
-				as, ok := cl.Body[0].(*ast.AssignStmt)
-				if !ok || len(as.Lhs) != 1 || p.exprStr(as.Lhs[0]) != "p10" {
-					continue
-				}
-				k, ok1 := p.constInt64(cl.List[0])
-				v, ok2 := p.constInt64(as.Rhs[0])
-				key := fmt.Sprintf("p10:%s:case%d", t.fn, k-t.bias)
-				found++
-				if !ok1 || !ok2 {
-					c.undecided(key, cl, "case or value is not constant", t.prop)
-					continue
-				}
-				e := k - t.bias
-				c.check(e >= 0 && e <= 18 && pow10(int(e)).Cmp(big.NewInt(v)) == 0, key, cl, fmt.Sprintf("p10 = 10^%d", e),
-					fmt.Sprintf("%s: case %d sets p10 = %d, want 10^%d", t.fn, e, v, e), t.prop)
-			}
-			return true
 		})
 		if found < 7 {
 			c.undecided("p10:"+t.fn, fd, fmt.Sprintf("only %d p10 table arms found (want >= 7)", found), t.prop)
+		}
+		if t.bias != 0 {
+			// the 64-bit product (exponent of the base)·p10·(coefficient of the power) is only shown not to
+			// overflow for p10 <= 10^7 (E7.G7, shortcut exit)
+			c.check(maxE <= 7, "p10:"+t.fn+":max", fd, "largest power of ten in the shortcut is 10^7", fmt.Sprintf("%s: the shortcut handles 10^%d; beyond 10^7 the 64-bit exponent product can overflow", t.fn, maxE), t.prop)
 		}
 	}
 }
